@@ -62,6 +62,19 @@ prop('C13',
      ])
 
 
+prop('C08',
+     units=['robdd'],
+     sites={'robdd': ['smooth_helper', 'smooth', 'get_or_insert']},
+     assumptions=[A_VERUS, A_EXTRACT, A_CELL, A_TERM, A_PTREQ],
+     replay='bdd',
+     explanation='smooth_helper / smooth carry the postconditions  forall env. ptr_sem(r, env) == ptr_sem(bdd, env)  and  smooth_from(r, 0, n): '
+                 'on every path the variables at levels 0..n-1 are tested exactly once, in order; get_or_insert (node creation) is under contract',
+     not_covered=[
+         'the counting consequence (weighted count of the smoothed diagram equals the brute-force sum): a statement about fold / bdd_fold, which memoise in RefCell<dyn Any> scratch (C07, not applicable)',
+         'callers in bin/weighted_model_count.rs and src/ffi/bdd.rs',
+     ])
+
+
 def proved_includes(root):
     """set of inc/*.rs files that some unit template includes non-assumed"""
     res = set()
